@@ -407,9 +407,21 @@ func runC10Seq(c *vk.Ctx, ops []c10op, key string, backends []string) {
 				case "lock":
 					err = bk.store.SetLock(op.Typ, op.Lock)
 				case "put":
-					err = bk.store.Put(ctx, []byte(op.Key), op.Val)
+					// the store gets buffers of its own, and the caller goes on to use them for something else
+					kb, vb := []byte(op.Key), append([]byte{}, op.Val...)
+					err = bk.store.Put(ctx, kb, vb)
+					scribble(kb)
+					scribble(vb)
 				case "get":
-					got, err = bk.store.Get(ctx, []byte(op.Key))
+					kb := []byte(op.Key)
+					got, err = bk.store.Get(ctx, kb)
+					scribble(kb)
+					if got != nil {
+						// ... and does the same with what a read returned
+						mine := append([]byte{}, got...)
+						scribble(got)
+						got = mine
+					}
 				case "dump":
 					if bk.name != "fs" && bk.name != "fsbin" {
 						return
@@ -609,6 +621,13 @@ func c10Strings(ops []c10op) []string {
 		s[i] = o.String()
 	}
 	return s
+}
+
+// scribble overwrites a buffer the caller owns.
+func scribble(b []byte) {
+	for i := range b {
+		b[i] = 'Z'
+	}
 }
 
 func C10() *vk.Check {
